@@ -150,12 +150,12 @@ Print Assumptions C03_whole_model.
 (** what the three predicates say: every span of a value, every span / position of an error *)
 Theorem C03_whole_model_meaning :
   forall m t,
-  (forall s v, val_ok m t (VSpanned s v) <-> (Canonical m t (sstart s) /\ Canonical m t (send s)) /\ val_ok m t v) /\
-  (forall es ts ex fo, err_ok m t (EUnexpected es ts ex fo) <->
-     (Canonical m t (sstart es) /\ Canonical m t (send es)) /\ (Canonical m t (sstart ts) /\ Canonical m t (send ts))) /\
-  (forall es p, err_ok m t (EBoundary es p) <-> (Canonical m t (sstart es) /\ Canonical m t (send es)) /\ Canonical m t p) /\
+  (forall s, sp_ok m t s <-> (Canonical m t (sstart s) /\ Canonical m t (send s)) /\ byte (sstart s) <= byte (send s)) /\
+  (forall s v, val_ok m t (VSpanned s v) <-> sp_ok m t s /\ val_ok m t v) /\
+  (forall es ts ex fo, err_ok m t (EUnexpected es ts ex fo) <-> sp_ok m t es /\ sp_ok m t ts) /\
+  (forall es p, err_ok m t (EBoundary es p) <-> sp_ok m t es /\ Canonical m t p) /\
   (forall tag e, err_ok m t (ETagged tag e) <-> err_ok m t e).
-Proof. intros m t. split; [|split; [|split]]; intros; split; intros HH; exact HH. Qed.
+Proof. intros m t. split; [|split; [|split; [|split]]]; intros; split; intros HH; exact HH. Qed.
 Print Assumptions C03_whole_model_meaning.
 
 (** the side condition [gok] (placeholders of the internal recover form carry no foreign spans) holds
